@@ -77,6 +77,9 @@ class GrammarGen:
         c = r.random()
         if self.p.get("trivia_explicit") and self.p.get("trivia") and c < 0.05:
             return ("ref", r.choice(["WHITESPACE", "COMMENT"]))
+        if self.p.get("linebreak_lits") and c < 0.16:
+            # line-break characters as ordinary literals: failures land on, between and right after them (C13)
+            return r.choice([("str", "\r"), ("str", "\n"), ("str", "\r\n"), ("str", "\u2028"), ("newline",), ("str", "a\r"), ("range", "\n", "\r")])
         if self.p.get("ci_nonascii") and c < 0.06:
             return ("ci", r.choice(["\u00df", "\u00e9", "\u01c6", "\u0130", "\u212a", "k\u00e9"]))
         if c < 0.45:
@@ -526,6 +529,90 @@ def stack_dig_case(index: int):
     want = "".join(reversed(letters[:before]))
     inputs = ["", want, want[:-1], want + "a", "!" + want, want[::-1], "zyx" + want, "x" + want]
     label = f"stackdig/{before}/{outer}/{inside}/{direct}/{inner}/{npop}/{'fail' if fails else 'commit'}"
+    return label, rules, inputs
+
+
+# ----------------------------------------------------------------------------------------
+# stack-swap family: inside a backtracking construct, entries that were there BEFORE the construct are dropped, the same
+# or another number of entries is pushed (so the depth may come back to what it was), an operation looks at the whole
+# stack (PEEK_ALL, POP_ALL, PEEK[..], ...), and the construct fails or commits; afterwards the stack is observed again.
+# Anything that remembers the stack by its depth, or journals a bulk removal by the wrong slice, shows here.
+
+SWAP_PROBES = ["none", "peekall", "popall", "peek", "slice_all", "pop", "peekall_twice"]
+SWAP_TAILS = ["popall", "peekall_popall", "pop_popall", "slice_popall", "peek_popall", "drop_peekall_popall"]
+
+
+def stack_swap_size() -> int:
+    return 3 * len(DIG_OUTER) * 3 * 3 * len(SWAP_PROBES) * len(SWAP_TAILS) * 2
+
+
+def stack_swap_case(index: int):
+    """index -> (label, rules, targeted inputs)."""
+    i = index
+    before = 1 + i % 3
+    i //= 3
+    outer = DIG_OUTER[i % len(DIG_OUTER)]
+    i //= len(DIG_OUTER)
+    ndrop = 1 + i % 3
+    i //= 3
+    npush = i % 3
+    i //= 3
+    probe = SWAP_PROBES[i % len(SWAP_PROBES)]
+    i //= len(SWAP_PROBES)
+    tail = SWAP_TAILS[i % len(SWAP_TAILS)]
+    i //= len(SWAP_TAILS)
+    fails = i % 2 == 0
+    letters = "abc"
+    pro = [("pushlit", letters[k]) for k in range(before)]
+    probe_e = {
+        "none": [], "peekall": [("peekall",)], "popall": [("popall",)], "peek": [("peek",)], "slice_all": [("slice", None, None)], "pop": [("pop",)],
+        "peekall_twice": [("and", ("peekall",)), ("peekall",)],
+    }[probe]
+    body = [("drop",) for _ in range(ndrop)] + [("pushlit", "xy"[k]) for k in range(npush)] + probe_e + ([("str", "!")] if fails else [])
+    body_e = ("seq", body) if len(body) > 1 else body[0]
+    if outer == "alt_first":
+        outer_e = ("alt", [body_e, ("str", "")])
+    elif outer == "opt":
+        outer_e = ("opt", body_e)
+    elif outer == "star":
+        outer_e = ("star", ("seq", [body_e, ("str", "+")]))
+    elif outer == "and":
+        outer_e = ("and", body_e)
+    elif outer == "not":
+        outer_e = ("not", body_e)
+    else:
+        outer_e = ("alt", [("seq", [("pushlit", "q"), ("str", "!")]), body_e, ("str", "")])
+    filler = [("star", ("group", ("seq", [("not", ("str", "-")), ("any",)]))), ("str", "-")]
+    tail_e = {
+        "popall": [("popall",)], "peekall_popall": [("peekall",), ("str", "="), ("popall",)], "pop_popall": [("pop",), ("str", "="), ("popall",)],
+        "slice_popall": [("slice", None, None), ("str", "="), ("popall",)], "peek_popall": [("peek",), ("str", "="), ("popall",)],
+        "drop_peekall_popall": [("drop",), ("peekall",), ("str", "="), ("popall",)],
+    }[tail]
+    rules = {"r": ("", ("seq", pro + [outer_e] + filler + tail_e + [("eoi",)]))}
+    st0 = list(letters[:before])
+    swapped = st0[: max(0, before - ndrop)] + list("xy"[:npush])
+    def uniq(xs):
+        out: list[str] = []
+        for x in xs:
+            if x not in out:
+                out.append(x)
+        return out
+
+    def rev(st):
+        return "".join(reversed(st))
+
+    probe_texts = uniq(["", rev(swapped), "".join(swapped[-1:]), rev(st0)])
+    seen_texts = uniq(["", rev(st0), rev(swapped), "".join(st0[-1:]), "".join(swapped[-1:]), rev(st0[:-1]), rev(swapped[:-1]), "".join(st0)])
+    mids = ["-"] + (["!-"] if fails else []) + ((["+-"] + (["!+-"] if fails else [])) if outer == "star" else [])
+    inputs = []
+    for a in probe_texts:
+        for mid in mids:
+            for b in seen_texts:
+                for c in ([""] if tail == "popall" else seen_texts):
+                    t = a + mid + b + ("" if tail == "popall" else "=" + c)
+                    if t not in inputs:
+                        inputs.append(t)
+    label = f"stackswap/{before}/{outer}/{ndrop}/{npush}/{probe}/{tail}/{'fail' if fails else 'commit'}"
     return label, rules, inputs
 
 
